@@ -236,6 +236,29 @@ def run(ctx: Ctx) -> Result:
                         res.note_case(('permit-widening', what_, k_, v_))
                         got = F.run_auth_scripts([pre_ + w_, l_], dict(cache))
                         if got is not False: report(f'{what_}: signature flagged 06, lock permits 00, after the witness wrote cache[{k_!r}] = {v_.hex()}', cache, [pre_ + w_, l_], False, got)
+            # "when no plugin is installed": after the embedder removed its extensions again (two or three were installed, then reset /
+            # removed one by one) none is installed - a script's signature instructions leave the sigfields alone
+            def _audit(t_, s_, c_): pass
+            def _rewrite(t_, s_, c_): c_['sigfield1'] = b'rewritten'
+            def _rewrite2(t_, s_, c_): c_['sigfield2'] = b'rewritten'
+            for how_ in ('reset', 'remove'):
+                for exts in ((_audit, _rewrite), (_rewrite, _audit), (_audit, _rewrite, _rewrite2), (_rewrite, _rewrite2)):
+                    try:
+                        for e_ in exts: F.add_signature_extension(e_)
+                        if how_ == 'reset': F.reset_signature_extensions()
+                        else:
+                            for e_ in exts: F.remove_signature_extension(e_)
+                        cache = {'sigfield1': b'abc', 'sigfield2': b'de'}
+                        probe = bytes([N['GET_MESSAGE'], 0]) + G.push(sk.sign(b'abcde').signature) + G.push(pk) + bytes([N['CHECK_SIG'], 0])
+                        res.note_case(('uninstalled-extensions', how_, len(exts), exts[0].__name__))
+                        _, st_, out = F.run_script(probe, dict(cache))
+                        left = [f_.__name__ for f_ in F._plugins.get('signature_extensions', []) if f_ in exts]
+                        if out.get('sigfield1') != b'abc' or out.get('sigfield2') != b'de' or left or [x for x in st_.list()][-1:] != [b'\xff']:
+                            report(f'{len(exts)} signature extensions installed, then all of them {"reset" if how_ == "reset" else "removed"}; GET_MESSAGE and CHECK_SIG of a valid signature afterwards', cache, [probe],
+                                   'sigfields unchanged, signature accepted, no extension left', f"sigfield1={out.get('sigfield1')!r} sigfield2={out.get('sigfield2')!r} still installed: {left}")
+                    finally:
+                        for e_ in exts:
+                            while e_ in F._plugins.get('signature_extensions', []): F._plugins['signature_extensions'].remove(e_)
             for name, val in (('timestamp', vmrun.NOW), ('sigfield3', b'embedder'), ('input_ts', 1700000000), ('note', 'text'), ('amount', 2.5)):
                 cache = {name: val}
                 probe = bytes([N['GET_VALUE'], len(name)]) + name.encode()
